@@ -97,8 +97,8 @@ func (b *build) runSingle(prop, tier string, tape []int, trace bool, avoid []str
 	if trace {
 		args = append(args, "-trace")
 	}
-	cmd := exec.Command(b.worker, args...)
-	cmd.Env = append(os.Environ(), "GOMAXPROCS=2", "GOTRACEBACK=single")
+	cmd := b.command(args...)
+	cmd.Env = append(cmd.Env, "GOMAXPROCS=2", "GOTRACEBACK=single")
 	var out, errb bytes.Buffer
 	cmd.Stdout = &out
 	cmd.Stderr = &errb
@@ -131,10 +131,19 @@ func (b *build) runSingle(prop, tier string, tape []int, trace bool, avoid []str
 		res.output = tail(strings.Join(rest, "\n"), 60)
 		return res
 	}
-	if err := json.Unmarshal(out.Bytes(), res); err != nil {
+	if err := decodeFirst(out.Bytes(), res); err != nil {
 		infra("cannot parse worker output: %v\n%s\n%s", err, out.String(), errb.String())
 	}
 	return res
+}
+
+// decodeFirst decodes the first JSON value in b (a test binary prints PASS after it).
+func decodeFirst(b []byte, v interface{}) error {
+	i := bytes.IndexByte(b, '{')
+	if i < 0 {
+		return fmt.Errorf("no JSON object in output")
+	}
+	return json.NewDecoder(bytes.NewReader(b[i:])).Decode(v)
 }
 
 func tail(s string, n int) string {
@@ -188,8 +197,8 @@ func (b *build) search(prop, tier string, seed int64, workers int, tc tierCfg, a
 			defer wg.Done()
 			args := []string{"-prop", prop, "-tier", tier, "-seed", fmt.Sprint(seed), "-worker", fmt.Sprint(w), "-nworkers", fmt.Sprint(workers),
 				"-budget", tc.budget.String(), "-maxruns", fmt.Sprint(perWorker), "-out", out, "-avoid", strings.Join(avoid, ",")}
-			cmd := exec.Command(b.worker, args...)
-			cmd.Env = append(os.Environ(), "GOMAXPROCS=1", "GOTRACEBACK=single")
+			cmd := b.command(args...)
+			cmd.Env = append(cmd.Env, b.searchEnv()...)
 			var errb bytes.Buffer
 			cmd.Stderr = &errb
 			done := make(chan error, 1)
@@ -258,9 +267,16 @@ func (b *build) search(prop, tier string, seed int64, workers int, tc tierCfg, a
 // shrink minimises a failing tape while the same violation class persists.
 func (b *build) shrink(prop, tier string, tape []int, class string, avoid []string) ([]int, int) {
 	tries := 0
+	maxTries := 600
 	deadline := time.Now().Add(90 * time.Second)
+	if b.raceMode {
+		// a race report reproduces with high but not full probability and every candidate costs
+		// a process under the race detector: minimise briefly
+		maxTries = 40
+		deadline = time.Now().Add(30 * time.Second)
+	}
 	test := func(t []int) bool {
-		if tries >= 600 || time.Now().After(deadline) {
+		if tries >= maxTries || time.Now().After(deadline) {
 			return false
 		}
 		tries++
@@ -330,7 +346,7 @@ func (b *build) shrink(prop, tier string, tape []int, class string, avoid []stri
 				}
 			}
 		}
-		if tries >= 600 || time.Now().After(deadline) {
+		if tries >= maxTries || time.Now().After(deadline) {
 			break
 		}
 	}
@@ -357,8 +373,9 @@ type replayFile struct {
 		Head  string `json:"head"`
 		Dirty string `json:"dirty_sha"`
 	} `json:"tree"`
-	ShrinkTries  int `json:"shrink_candidates"`
-	OriginalTape int `json:"original_tape_len"`
+	Phase        string `json:"phase,omitempty"`
+	ShrinkTries  int    `json:"shrink_candidates"`
+	OriginalTape int    `json:"original_tape_len"`
 }
 
 func cmdCheck(prop, tier string) int {
@@ -410,6 +427,30 @@ func cmdCheck(prop, tier string) int {
 	}
 	sort.Strings(avoid)
 
+	sr, v := b.explore(prop, tier, seed, workers, tc, avoid, kf, &lines, &knownHit)
+	violations += v
+
+	samples := b.samples(prop, tier, seed, workers, avoid)
+	writeEvidence(prop, tier, seed, b, sr, samples, avoid, knownHit, violations, time.Since(start).Seconds())
+	for _, l := range lines {
+		fmt.Println(l)
+	}
+	total := 0
+	for _, s := range sr.sums {
+		total += s.Runs
+	}
+	fmt.Printf("vsim: %s %s seed=%d: %d runs, %d distinct non-trivial traces, %d violation(s), %.1fs\n", prop, tier, seed, total, sr.traces, violations, time.Since(start).Seconds())
+	if violations > 0 {
+		return 1
+	}
+	return 0
+}
+
+// explore runs the seeded search with this build's worker, confirms, minimises
+// and classifies what it finds.
+func (b *build) explore(prop, tier string, seed int64, workers int, tc tierCfg, avoid []string, kf *knownFile, linesp *[]string, knownHitp *[]string) (*searchResult, int) {
+	lines, knownHit := *linesp, *knownHitp
+	violations := 0
 	sr := b.search(prop, tier, seed, workers, tc, avoid)
 
 	// collect candidate violations, one per class, smallest run first
@@ -431,6 +472,10 @@ func cmdCheck(prop, tier string) int {
 		classes = classes[:4]
 	}
 
+	if len(sr.crashes) > 2 {
+		sort.Slice(sr.crashes, func(i, j int) bool { return sr.crashes[i].run < sr.crashes[j].run })
+		sr.crashes = sr.crashes[:2]
+	}
 	for _, c := range sr.crashes {
 		// a worker died: re-execute the run it was in, alone, recording the tape
 		path, ok := b.handleCrash(prop, tier, seed, c, avoid)
@@ -473,7 +518,7 @@ func cmdCheck(prop, tier string) int {
 			continue
 		}
 		rf := replayFile{Property: prop, Engine: engineOf(prop), VerifSeed: seed, Run: v.Run, Tier: tier, Tape: fin.Tape, Avoid: avoid,
-			Violation: fin.Violation, Trace: fin.Trace, ShrinkTries: tries, OriginalTape: len(v.Tape)}
+			Violation: fin.Violation, Trace: fin.Trace, ShrinkTries: tries, OriginalTape: len(v.Tape), Phase: b.phase}
 		for _, ch := range fin.Choices {
 			rf.Choices = append(rf.Choices, fmt.Sprintf("%s: %d/%d", ch.Label, ch.V, ch.N))
 		}
@@ -488,20 +533,8 @@ func cmdCheck(prop, tier string) int {
 		violations++
 	}
 
-	samples := b.samples(prop, tier, seed, workers, avoid)
-	writeEvidence(prop, tier, seed, b, sr, samples, avoid, knownHit, violations, time.Since(start).Seconds())
-	for _, l := range lines {
-		fmt.Println(l)
-	}
-	total := 0
-	for _, s := range sr.sums {
-		total += s.Runs
-	}
-	fmt.Printf("vsim: %s %s seed=%d: %d runs, %d distinct non-trivial traces, %d violation(s), %.1fs\n", prop, tier, seed, total, sr.traces, violations, time.Since(start).Seconds())
-	if violations > 0 {
-		return 1
-	}
-	return 0
+	*linesp, *knownHitp = lines, knownHit
+	return sr, violations
 }
 
 func sanitize(s string) string {
@@ -532,15 +565,15 @@ func writeJSON(path string, v interface{}) {
 func (b *build) samples(prop, tier string, seed int64, workers int, avoid []string) []interface{} {
 	var out []interface{}
 	for run := 0; run < 3; run++ {
-		cmd := exec.Command(b.worker, "-prop", prop, "-tier", tier, "-seed", fmt.Sprint(seed), "-worker", fmt.Sprint(run), "-nworkers", "1000000",
+		cmd := b.command("-prop", prop, "-tier", tier, "-seed", fmt.Sprint(seed), "-worker", fmt.Sprint(run), "-nworkers", "1000000",
 			"-maxruns", "1", "-out", filepath.Join(b.dir, "out"), "-avoid", strings.Join(avoid, ","), "-sample")
-		cmd.Env = append(os.Environ(), "GOMAXPROCS=1")
+		cmd.Env = append(cmd.Env, "GOMAXPROCS=1")
 		ob, err := cmd.Output()
 		if err != nil {
 			continue
 		}
 		var sr singleResult
-		if json.Unmarshal(ob, &sr) == nil {
+		if decodeFirst(ob, &sr) == nil {
 			out = append(out, map[string]interface{}{"run": run, "tape_len": len(sr.Tape), "trace": sr.Trace})
 		}
 	}
@@ -553,9 +586,9 @@ func (b *build) handleCrash(prop, tier string, seed int64, c crashRec, avoid []s
 		return "", false
 	}
 	logf := filepath.Join(b.dir, fmt.Sprintf("crashtape-%d", c.run))
-	cmd := exec.Command(b.worker, "-prop", prop, "-tier", tier, "-seed", fmt.Sprint(seed), "-worker", fmt.Sprint(c.run), "-nworkers", "1000000",
+	cmd := b.command("-prop", prop, "-tier", tier, "-seed", fmt.Sprint(seed), "-worker", fmt.Sprint(c.run), "-nworkers", "1000000",
 		"-maxruns", "1", "-out", filepath.Join(b.dir, "out"), "-avoid", strings.Join(avoid, ","), "-sample", "-tapelog", logf)
-	cmd.Env = append(os.Environ(), "GOMAXPROCS=1", "GOTRACEBACK=single")
+	cmd.Env = append(cmd.Env, b.searchEnv()...)
 	var errb bytes.Buffer
 	cmd.Stderr = &errb
 	err := cmd.Run()
@@ -583,7 +616,7 @@ func (b *build) handleCrash(prop, tier string, seed int64, c crashRec, avoid []s
 	}
 	rf := replayFile{Property: prop, Engine: engineOf(prop), VerifSeed: seed, Run: c.run, Tier: tier, Tape: min, Avoid: avoid,
 		Violation: &violation{Property: prop, Oracle: "worker-crash", Op: "run", Message: "the process executing this run died on a fatal runtime error"},
-		Crash:     fin.output, Trace: fin.Trace, ShrinkTries: tries, OriginalTape: len(tape)}
+		Crash:     fin.output, Trace: fin.Trace, ShrinkTries: tries, OriginalTape: len(tape), Phase: b.phase}
 	rf.Tree.Head, rf.Tree.Dirty = b.head, b.dirty
 	path := filepath.Join(verifDir, "replays", fmt.Sprintf("%s-worker-crash-seed%d-run%d.json", prop, seed, c.run))
 	writeJSON(path, rf)
